@@ -7,7 +7,7 @@ RULE = ("messages with headers from a shared small name pool (repeats, case vari
         "missing in the first occurrence, swapped order, absent lists, version 0/1/*, generic/specific labels, expected software vs "
         "User-Agent/Server incl. empty User-Agent); observable (matched line, dishonest, parsed signature) of fingerprint_http; "
         "non-trivial = the model returns a match")
-GEN_TIE = ['http']     # find_http_match, http_signatures_match (with its set tests), headers_match, HTTP.software and the dishonest flag are also TRANSLATED from /repo's source and proved equal to the model
+GEN_TIE = ['http', 'httpx']     # find_http_match, http_signatures_match (with its set tests), headers_match, HTTP.software and the dishonest flag are also TRANSLATED from /repo's source and proved equal to the model
 ASSUMPTIONS = ["the database text is parsed by the model's own verified parser (C09/C10 tie it to the implementation's)"]
 EXHAUSTIVE = {}
 
